@@ -170,3 +170,87 @@ package core
 //@   tag C01 C02 C06
 //@   requires CoreScanInv(core) && LexOK(lexeme) && lexeme.file == core.scanner.file && 1 <= core.scanner.curIndex
 //@   ensures ret == nil ==> CoreScanInv(core)
+
+// ---------------------------------------------------------------- banned directives (C18)
+
+// every access to the file system bumps this ghost counter (contracts of os.Stat / os.ReadFile in deps.spec)
+//@ ghostvar ioCount int
+
+//@ func japiErrorForLexeme
+//@   tag C02 C01 C18
+//@   requires lex != nil && lex.file != nil && lex.begin <= len(lex.file.content)
+//@   modifies nothing
+//@   ensures fresh(ret) && ret.file == lex.file && ret.index == lex.begin
+
+//@ pred FuncsWF(core *JApiCore) = forall k directive.Enumeration :: has(core.directiveFunctions, k) ==> core.directiveFunctions[k] != nil
+//@ pred MacroWF(core *JApiCore) = core.macro != nil && (forall k string :: has(core.macro, k) ==> DirWF(core.macro[k]))
+
+//@ func (*JApiCore).addDirective
+//@   tag C18 C01 C02
+//@   requires core != nil && DirWF(d) && FuncsWF(core)
+//@   ensures [C18] old(has(core.bannedDirectives, d.type_)) ==> ret != nil && ret.file == d.keywordCoords.file && ret.index == d.keywordCoords.begin && unchanged()
+
+//@ func (*JApiCore).processInclude
+//@   tag C18 C01 C02 C08
+//@   requires CoreScanInv(core) && keyword != nil && keyword.file == core.scanner.file && keyword.begin <= len(keyword.file.content)
+//@   ensures [C18] old(has(core.bannedDirectives, 23)) ==> ret != nil && ret.file == keyword.file && ret.index == keyword.begin && unchanged() && ioCount == old(ioCount)
+
+//@ func (*JApiCore).addMacro
+//@   tag C18 C07 C11 C01 C02
+//@   requires core != nil && DirWF(d) && MacroWF(core)
+//@   modifies mapof(core.macro)
+//@   ensures [C18] old(has(core.bannedDirectives, 21)) ==> ret != nil && ret.index == d.keywordCoords.begin && unchanged()
+//@   ensures [C11] old(has(core.macro, d.namedParameters["Name"])) ==> ret != nil && unchanged()
+//@   ensures [C11] !old(has(d.namedParameters, "Name")) || d.namedParameters["Name"] == "" ==> ret != nil && unchanged()
+//@   ensures [C07] isnilslice(d.Children) ==> ret != nil && unchanged()
+//@   ensures [C02] ret != nil ==> ret.file == d.keywordCoords.file && ret.index == d.keywordCoords.begin
+//@   ensures MacroWF(core)
+//@   ensures ret == nil ==> has(core.macro, d.namedParameters["Name"]) && core.macro[d.namedParameters["Name"]] == d
+//@        && (forall k string :: k != d.namedParameters["Name"] ==> has(core.macro, k) == old(has(core.macro, k)) && core.macro[k] == old(core.macro[k]))
+
+//@ func (*JApiCore).processPasteDirective
+//@   tag C18 C07 C01 C02
+//@   requires core != nil && DirWF(paste) && MacroWF(core)
+//@   ensures [C18] old(has(core.bannedDirectives, 22)) ==> ret != nil && ret.index == paste.keywordCoords.begin && unchanged()
+//@   ensures [C07] !old(has(core.bannedDirectives, 22)) && paste.Annotation == "" && has(paste.namedParameters, "Name") && paste.namedParameters["Name"] != ""
+//@            && !old(has(core.macro, paste.namedParameters["Name"])) ==> ret != nil && unchanged()
+
+// ---------------------------------------------------------------- INCLUDE (C08)
+
+//@ ghostvar lastStat string
+//@ specfn pathJoin(a string, b string) string
+//@ specfn pathDir(a string) string
+
+//@ func readFile
+//@   tag C08 C01
+//@   modifies ioCount
+//@   ensures isnil(ret1) ==> fresh(ret0) && ret0.name == p
+//@   ensures ioCount == old(ioCount) + 1
+
+//@ func incorrectParameter
+//@   inline
+//@ func requiredParameterNotSpecified
+//@   inline
+
+//@ func (*JApiCore).getIncludedFilePath
+//@   tag C08 C01 C02
+//@   requires CoreScanInv(core) && keyword != nil && keyword.file != nil && keyword.begin <= len(keyword.file.content)
+//@   modifies core.scanner.step, core.scanner.stepStack, core.scanner.finds, core.scanner.stack, core.scanner.curIndex, core.scanner.open, core.scanner.openBegin, core.scanner.lastEnd, core.scanner.lastDirectiveParameters, ioCount, lastStat
+//@   ensures ret1 == nil ==> NextInv(core.scanner)
+//@   ensures [C02] ret1 != nil ==> (ret1.file == keyword.file && ret1.index == keyword.begin) || (ret1.file == core.scanner.file && ret1.index <= core.scanner.dataSize)
+//@   ensures [C08] ioCount != old(ioCount) ==> exists p string :: includeNameOK(p) && lastStat == pathJoin(pathDir(core.scanner.file.name), p)
+//@   ensures [C08] ret1 == nil ==> exists p string :: includeNameOK(p) && ret0 == pathJoin(pathDir(core.scanner.file.name), p) && lastStat == ret0
+
+// what the validator really guarantees (DESIGN 4.C08): not absolute, no backslash, no "./" or "/." anywhere
+//@ pred includeNameOK(s string) = len(s) > 0 && s[0] != '/' && !strcontains(s, "./") && !strcontains(s, "/.") && !strcontains(s, "\\")
+
+//@ func validateIncludeFileName
+//@   tag C08 C01
+//@   pure
+//@   requires len(s) > 0
+//@   ensures isnil(ret) ==> includeNameOK(s)
+
+// The property-level reading of the validator (C08): a '/'-delimited path component equal to "." or ".." can only be
+// the whole name (".." alone passes the validator and is rejected afterwards as a directory).
+//@ lemma includeComponents : [C08] forall s string :: includeNameOK(s) ==> (forall i int, j int :: 0 <= i && i < j && j <= len(s)
+//@      && (i == 0 || s[i-1] == '/') && (j == len(s) || s[j] == '/') && (s[i:j] == "." || s[i:j] == "..") ==> i == 0 && j == len(s))
